@@ -209,6 +209,7 @@ class IOManager:
 
         spec = cls(**spec_args)
         spec._manager = self
+        spec._io_group = io_group
         spec._io = self.get_or_create_io(
             io_group, pathlib.Path(path), cls=cls.io_class, **io_args)
         try:
@@ -238,9 +239,11 @@ class IOManager:
     def get_spec_from_value(self, io_group, value):
         ios = self.get_ios(io_group)
         ios.update(self.get_ios(None))
+        # specs in files of absolute paths can be of other groups
         return next(
             (spec for io_ in ios.values() for spec in io_.specs.values()
-         if spec.value is value), None)
+         if spec.value is value
+         and (spec._io_group is io_group or spec._io_group is None)), None)
 
     def update_spec_value(self, spec, value, kwargs):
         if spec._can_update_value(value, kwargs):
@@ -332,6 +335,7 @@ class BaseIOSpec:
     def __init__(self):
         self._manager = None
         self._io = None
+        self._io_group = None   # set by IOManager.new_spec
 
     @property
     def io(self):
@@ -446,6 +450,7 @@ class BaseIOSpec:
     def __setstate__(self, state):
         self._manager = state["manager"]
         self._io = state["_io"] if "_io" in state else state["_data"]  # renamed from v0.20.0
+        self._io_group = None   # set by IOSpecUnpickler
         if "is_hidden" in state:
             self._is_hidden = state["is_hidden"]
         else:
